@@ -1,4 +1,5 @@
 import SaModel.Lemmas.C10Take
+import SaModel.Lemmas.C01MapOps
 /-
 `push` (the whole mutual block) never changes what `take` leaves behind.
 -/
@@ -257,7 +258,7 @@ theorem push_takeRest (ext : Ext) : ∀ (x : SVal) (b b' : B), push ext b x = .o
       obtain ⟨o1, _, h⟩ := (bind_ok _ _ _).1 h
       obtain ⟨⟨o2, ks', vs'⟩, h3, h⟩ := (bind_ok _ _ _).1 h
       cases h
-      have := pushMapOps_takeRest ext ops _ _ _ _ h3
+      have := pushMapOps_takeRest ext ops _ _ _ _ _ h3
       simp [takeRest, setValidity_skel h1, this.1, this.2]
     | _ => simp [push, ctx_ok, notSupported, fail] at h
   | .unitVariant n i vn, b, b', h => by
@@ -404,20 +405,18 @@ theorem pushMapEntries_takeRest (ext : Ext) : ∀ (es : SEntries) (offs : List I
     rw [this.1, this.2, push_takeRest ext k ks ks' h2, push_takeRest ext x vs vs' h3]
     exact ⟨rfl, rfl⟩
 
-theorem pushMapOps_takeRest (ext : Ext) : ∀ (ops : SMapOps) (offs : List Int) (ks vs : B) (r : List Int × B × B),
-    pushMapOps ext offs ks vs ops = .ok r → takeRest r.2.1 = takeRest ks ∧ takeRest r.2.2 = takeRest vs
-  | .nil, offs, ks, vs, r, h => by rw [pushMapOps] at h; cases h; exact ⟨rfl, rfl⟩
-  | .key k rest, offs, ks, vs, r, h => by
-    rw [pushMapOps] at h
-    obtain ⟨o', _, h⟩ := (bind_ok _ _ _).1 h
-    obtain ⟨ks', h2, h⟩ := (bind_ok _ _ _).1 h
-    have := pushMapOps_takeRest ext rest o' ks' vs r h
+theorem pushMapOps_takeRest (ext : Ext) : ∀ (ops : SMapOps) (pd : Bool) (offs : List Int) (ks vs : B) (r : List Int × B × B),
+    pushMapOps ext pd offs ks vs ops = .ok r → takeRest r.2.1 = takeRest ks ∧ takeRest r.2.2 = takeRest vs
+  | .nil, pd, offs, ks, vs, r, h => by
+    obtain ⟨_, rfl⟩ := pushMapOps_nil_ok h; exact ⟨rfl, rfl⟩
+  | .key k rest, pd, offs, ks, vs, r, h => by
+    obtain ⟨_, o', ks', _, h2, h⟩ := pushMapOps_key_ok h
+    have := pushMapOps_takeRest ext rest true o' ks' vs r h
     rw [this.1, this.2, push_takeRest ext k ks ks' h2]
     exact ⟨rfl, rfl⟩
-  | .value x rest, offs, ks, vs, r, h => by
-    rw [pushMapOps] at h
-    obtain ⟨vs', h3, h⟩ := (bind_ok _ _ _).1 h
-    have := pushMapOps_takeRest ext rest offs ks vs' r h
+  | .value x rest, pd, offs, ks, vs, r, h => by
+    obtain ⟨_, vs', h3, h⟩ := pushMapOps_value_ok h
+    have := pushMapOps_takeRest ext rest false offs ks vs' r h
     rw [this.1, this.2, push_takeRest ext x vs vs' h3]
     exact ⟨rfl, rfl⟩
 end
